@@ -9,9 +9,13 @@ for f in sorted(glob.glob(V + "/seeded/*/meta.json"), key=lambda p: (p.split("/"
     res = []
     for k, v in c.items():
         if v["exit"] == 0:
-            res.append("%s: NOT caught" % k)
+            if not sid.startswith("FREE"):
+                res.append("%s: NOT caught" % k)
         else:
             res.append("%s: VIOLATION (%s)" % (k, "failing input" if v.get("replay_kind") == "failing-input" else "no failing input found"))
+    if sid.startswith("FREE"):     # all twenty checks were run: list the ones that report it
+        silent = sum(1 for v in c.values() if v["exit"] == 0)
+        res.append(("%d other checks silent" % silent) if res else "NOT caught by any of the %d checks" % silent)
     conf = m.get("confirmed_by_lead", {})
     okc = all(conf.get(x) for x in ("applies", "compiles", "suite_still_passes", "demo_passes_without_change", "demo_fails_with_change"))
     rows.append("| %s | %s | %s | %s | %s |" % (sid, (m.get("breaks") or "").replace("|", "/").replace("\n", " ")[:260],
